@@ -1,7 +1,326 @@
-(* C08 - signed exchanges; placeholder until the proofs land. *)
-From WP Require Import Base.Prelude Model.Sxg.
+(* C08 - signed exchanges: what is signed and written is what the drafts prescribe.
+
+   "For every exchange and version, the message that gets signed, the Signature
+   header, the canonical CBOR of the request/response headers and the
+   application/signed-exchange file layout are byte-for-byte what the
+   specification prescribes, as recomputed by an independent implementation of
+   the spec text ...; the header-integrity value is the SHA-256 of exactly those
+   header bytes."
+
+   Model: Model/Sxg.v (go/signedexchange/{signedexchange,signer}.go,
+   version/version.go).  Independent transcription of the drafts: Spec/Sxg.v
+   (generic CBOR values + canonical encoder [canon], header maps, signed
+   message b1 and b2/b3, file layout, header integrity, Signature header).
+   Proofs: Proofs/Sxg{Canon,Sign}.v.  Statements only here.
+
+   Reading notes.
+   - The spec functions return [option] ([None]: the drafts define no bytes);
+     the model returns [R].  [to_opt] forgets which non-Ok result it was; the
+     model only ever answers Ok or Err on these paths (proved below).
+   - Domain facts.  Coq lists are unbounded, Go lengths are ints: [go_exchange e]
+     says every string / map of [e] has length < 2^63, [int64] that a Z is a Go
+     int64.  They are hypotheses, not restrictions: every Go value satisfies
+     them.  For the b2/b3 message the length of the header block itself must
+     fit 8 bytes (again automatic in Go); it is stated as such.
+   - H (SHA-256) is abstract in the theorems; the examples instantiate it with
+     Base/Sha256.sha256.
+
+   FINDING (refuted part, see [signed_message_b2b3_nocert_refuted]): for b2/b3
+   the drafts say "If cert-sha256 is set, a byte holding the value 32 followed
+   by the 32 bytes of the value of cert-sha256. Otherwise a 0 byte."; the Go
+   code (and the model) writes nothing in the "otherwise" case, so the signed
+   message is one byte short when the Signer has no certificate.  With a
+   certificate hash the message conforms ([signed_message_b2b3_conforms]).
+
+   FINDING (reader, see [read_ignores_length_limits]): 5.3 says of sigLength
+   "If this is larger than 16384 (16*1024), parsing MUST fail" (and 524288 for
+   headerLength); Write enforces both, ReadExchangePrologue enforces neither. *)
+From Coq Require Import Lia Permutation.
+From WP Require Import Base.Prelude Base.Base64 Base.Decimal Base.Sha256.
+From WP Require Import Model.Cbor Model.Http Model.StructHdr Model.Sxg.
+From WP Require Import Spec.Sxg Spec.StructHdr.
+From WP Require Import Proofs.SxgCanon Proofs.SxgSign.
 Open Scope N_scope.
 
-Theorem c08_smoke : from_magic (header_magic V1b3) = Some V1b3.
-Proof. reflexivity. Qed.
-Print Assumptions c08_smoke.
+(* ---- canonical CBOR of the headers -------------------------------------------- *)
+Theorem c08_headers_cbor_conforms : forall e bs, go_exchange e -> int64 (e_status e) ->
+  (encode_exchange_headers e = Ok bs <-> spec_headers_cbor e = Some bs).
+Proof. exact headers_cbor_conforms. Qed.
+Print Assumptions c08_headers_cbor_conforms.
+
+(* ... and it fails (duplicate map key: two names equal after lower-casing, or
+   a header literally named like a pseudo key) exactly when the spec gives none *)
+Theorem c08_headers_cbor_err : forall e, go_exchange e -> int64 (e_status e) ->
+  (encode_exchange_headers e = Err <-> spec_headers_cbor e = None).
+Proof. exact headers_cbor_err. Qed.
+Print Assumptions c08_headers_cbor_err.
+
+Theorem c08_headers_never_panic : forall e,
+  match encode_exchange_headers e with Ok _ | Err => True | _ => False end.
+Proof. exact encode_exchange_headers_ok_or_err. Qed.
+Print Assumptions c08_headers_never_panic.
+
+(* Go iterates a map in arbitrary order; the bytes do not depend on it *)
+Theorem c08_headers_perm_invariant : forall e e',
+  Permutation (e_reqh e) (e_reqh e') -> Permutation (e_resph e) (e_resph e') ->
+  e_ver e = e_ver e' -> e_uri e = e_uri e' -> e_method e = e_method e' ->
+  e_status e = e_status e' ->
+  encode_exchange_headers e = encode_exchange_headers e'.
+Proof. exact headers_perm_invariant. Qed.
+Print Assumptions c08_headers_perm_invariant.
+
+Theorem c08_write_perm_invariant : forall e e',
+  Permutation (e_reqh e) (e_reqh e') -> Permutation (e_resph e) (e_resph e') ->
+  e_ver e = e_ver e' -> e_uri e = e_uri e' -> e_method e = e_method e' ->
+  e_status e = e_status e' -> e_sig e = e_sig e' -> e_payload e = e_payload e' ->
+  write e = write e'.
+Proof. exact write_perm_invariant. Qed.
+Print Assumptions c08_write_perm_invariant.
+
+(* ---- the signed message ---------------------------------------------------------- *)
+Theorem c08_signed_message_b1_conforms : forall e cert validity date expires m,
+  e_ver e = V1b1 -> go_exchange e -> int64 (e_status e) ->
+  int64 date -> int64 expires -> go_len validity ->
+  match cert with Some c => go_len c | None => True end ->
+  (signed_message e cert validity date expires = Ok m <->
+   spec_message_b1 e cert validity date expires = Some m).
+Proof. exact signed_message_b1_conforms. Qed.
+Print Assumptions c08_signed_message_b1_conforms.
+
+Theorem c08_signed_message_b2b3_conforms : forall e c validity date expires m,
+  e_ver e <> V1b1 -> go_exchange e -> int64 (e_status e) ->
+  int64 date -> int64 expires -> go_len validity ->
+  (forall hdr, encode_exchange_headers e = Ok hdr -> lenN hdr < two64) ->
+  (signed_message e (Some c) validity date expires = Ok m <->
+   spec_message_b2b3 e (Some c) validity date expires = Some m).
+Proof. exact signed_message_b2b3_conforms. Qed.
+Print Assumptions c08_signed_message_b2b3_conforms.
+
+(* negative date / expires: no 8-byte encoding; refused by model and spec alike *)
+Theorem c08_signed_message_b2b3_negative : forall e cert validity date expires,
+  e_ver e <> V1b1 -> ((date < 0)%Z \/ (expires < 0)%Z) ->
+  signed_message e cert validity date expires = Err /\
+  spec_message_b2b3 e cert validity date expires = None.
+Proof. exact signed_message_b2b3_negative. Qed.
+Print Assumptions c08_signed_message_b2b3_negative.
+
+Theorem c08_signed_message_never_panics : forall e cert validity date expires,
+  match signed_message e cert validity date expires with Ok _ | Err => True | _ => False end.
+Proof. exact signed_message_ok_or_err. Qed.
+Print Assumptions c08_signed_message_never_panics.
+
+(* ---- the file ---------------------------------------------------------------------- *)
+Theorem c08_file_conforms : forall e bs, go_exchange e -> int64 (e_status e) ->
+  (write e = Ok bs <-> spec_file e = Some bs).
+Proof. exact file_conforms. Qed.
+Print Assumptions c08_file_conforms.
+
+Theorem c08_write_never_panics : forall e, match write e with Ok _ | Err => True | _ => False end.
+Proof. exact write_ok_or_err. Qed.
+Print Assumptions c08_write_never_panics.
+
+(* ---- header integrity --------------------------------------------------------------- *)
+Theorem c08_header_integrity_conforms : forall (H : bytes -> bytes) e v,
+  go_exchange e -> int64 (e_status e) ->
+  (header_integrity H e = Ok v <->
+   exists hdr, spec_headers_cbor e = Some hdr /\ v = s2b "sha256-" ++ b64_encode true false (H hdr)).
+Proof. exact header_integrity_conforms. Qed.
+Print Assumptions c08_header_integrity_conforms.
+
+Theorem c08_header_integrity_eq : forall (H : bytes -> bytes) e, go_exchange e -> int64 (e_status e) ->
+  spec_header_integrity H e = to_opt (header_integrity H e).
+Proof. exact header_integrity_eq. Qed.
+Print Assumptions c08_header_integrity_eq.
+
+(* ---- the Signature header ------------------------------------------------------------ *)
+(* no domain hypothesis at all; Err on both sides exactly for non-printable URLs *)
+Theorem c08_signature_header_conforms : forall (H : bytes -> bytes) e c0 cs cert_url validity date expires sig,
+  signature_header_value H e (c0 :: cs) cert_url validity date expires sig
+  = of_opt (spec_signature_header H (e_ver e) (c0 :: cs) cert_url validity date expires sig).
+Proof. exact signature_header_conforms. Qed.
+Print Assumptions c08_signature_header_conforms.
+
+(* the Params map of signer.go in ANY iteration order serializes to the same
+   text: parameters come out sorted by key *)
+Theorem c08_signature_header_order_irrelevant : forall (H : bytes -> bytes) e certs cert_url validity date expires sig ps,
+  Permutation ps (sig_params H (e_ver e) certs cert_url validity date expires sig) ->
+  serialize_pi {| pi_label := s2b "label"; pi_params := ps |}
+  = signature_header_value H e certs cert_url validity date expires sig.
+Proof. exact signature_header_order_irrelevant. Qed.
+Print Assumptions c08_signature_header_order_irrelevant.
+
+Theorem c08_signature_header_ok_iff : forall (H : bytes -> bytes) e c0 cs cert_url validity date expires sig,
+  (exists s, signature_header_value H e (c0 :: cs) cert_url validity date expires sig = Ok s)
+  <-> forallb printable_b cert_url = true /\ forallb printable_b validity = true.
+Proof. exact signature_header_ok_iff. Qed.
+Print Assumptions c08_signature_header_ok_iff.
+
+(* ==== non-vacuity and examples ======================================================== *)
+Definition ex_resph : headers :=
+  [(s2b "Content-Type", [s2b "text/html; charset=utf-8"]);
+   (s2b "X-Multi", [s2b "a"; s2b "b"]);
+   (s2b "Digest", [s2b "mi-sha256-03=dcRDgR2GM35DluAV13PzgnG6+pvQwPywfFvAu1UeFrs="]);
+   (s2b "content-encoding", [s2b "mi-sha256-03"])].
+Definition ex_reqh : headers := [(s2b "Accept", [s2b "*/*"]); (s2b "accept-Language", [s2b "en"; s2b "fr"])].
+
+Definition ex (v : version) : exchange :=
+  {| e_ver := v; e_uri := s2b "https://example.com/index.html";
+     e_method := s2b "GET"; e_reqh := match v with V1b3 => [] | _ => ex_reqh end;
+     e_status := 200%Z; e_resph := ex_resph;
+     e_sig := s2b "label;sig=*AA==*"; e_payload := s2b "<!doctype html>"; e_taint := false |}.
+
+Example ex_go : forall v, go_exchange (ex v) /\ int64 (e_status (ex v)).
+Proof.
+  intros v. split; [|unfold int64; cbn; lia].
+  destruct v; unfold go_exchange, go_headers, go_len, ex, ex_reqh, ex_resph;
+    cbn [e_uri e_method e_reqh e_resph];
+    repeat first [split | constructor | (vm_compute; reflexivity)].
+Qed.
+
+(* the b3 header block, spelled out: a 5-entry map sorted by encoded key
+   (shorter keys first: "digest" < ":status" < "x-multi" < "content-type" < ...) *)
+Example ex_headers_b3 :
+  encode_exchange_headers (ex V1b3) =
+  Ok ([165]
+      ++ [70] ++ s2b "digest" ++ [88; 57] ++ s2b "mi-sha256-03=dcRDgR2GM35DluAV13PzgnG6+pvQwPywfFvAu1UeFrs="
+      ++ [71] ++ s2b ":status" ++ [67] ++ s2b "200"
+      ++ [71] ++ s2b "x-multi" ++ [67] ++ s2b "a,b"
+      ++ [76] ++ s2b "content-type" ++ [88; 24] ++ s2b "text/html; charset=utf-8"
+      ++ [80] ++ s2b "content-encoding" ++ [76] ++ s2b "mi-sha256-03").
+Proof. vm_compute. reflexivity. Qed.
+
+Example ex_headers_all :
+  forallb (fun v => match encode_exchange_headers (ex v), spec_headers_cbor (ex v) with
+                    | Ok a, Some b => bytes_eqb a b
+                    | _, _ => false
+                    end) [V1b1; V1b2; V1b3] = true.
+Proof. vm_compute. reflexivity. Qed.
+
+(* a different iteration order of both maps: same bytes *)
+Example ex_headers_perm :
+  encode_exchange_headers
+    {| e_ver := V1b2; e_uri := e_uri (ex V1b2); e_method := s2b "GET"; e_reqh := rev ex_reqh;
+       e_status := 200%Z; e_resph := rev ex_resph; e_sig := []; e_payload := []; e_taint := false |}
+  = encode_exchange_headers (ex V1b2).
+Proof. vm_compute. reflexivity. Qed.
+
+(* a duplicate after lower-casing, or a header named like a pseudo key: refused, spec None *)
+Definition ex_dup : exchange :=
+  {| e_ver := V1b3; e_uri := s2b "https://e.com/"; e_method := s2b "GET"; e_reqh := [];
+     e_status := 200%Z; e_resph := [(s2b "A", [[1]]); (s2b "a", [[2]])];
+     e_sig := []; e_payload := []; e_taint := false |}.
+Definition ex_pseudo : exchange :=
+  {| e_ver := V1b3; e_uri := s2b "https://e.com/"; e_method := s2b "GET"; e_reqh := [];
+     e_status := 200%Z; e_resph := [(s2b ":Status", [s2b "404"])];
+     e_sig := []; e_payload := []; e_taint := false |}.
+Example ex_dup_refused :
+  encode_exchange_headers ex_dup = Err /\ spec_headers_cbor ex_dup = None /\
+  encode_exchange_headers ex_pseudo = Err /\ spec_headers_cbor ex_pseudo = None /\
+  write ex_dup = Err /\ signed_message ex_dup (Some [1]) [] 0 0 = Err.
+Proof. vm_compute. repeat split. Qed.
+
+Definition ex_cert : bytes := s2b "not really DER".
+Definition ex_validity : bytes := s2b "https://example.com/resource.validity".
+Definition ex_date : Z := 1511128380.
+Definition ex_expires : Z := 1511733180.
+
+Example ex_message_b1 :
+  match signed_message (ex V1b1) (Some (sha256 ex_cert)) ex_validity ex_date ex_expires,
+        spec_message_b1 (ex V1b1) (Some (sha256 ex_cert)) ex_validity ex_date ex_expires with
+  | Ok a, Some b => bytes_eqb a b && (lenN a =? 457)
+  | _, _ => false
+  end = true.
+Proof. vm_compute. reflexivity. Qed.
+
+Example ex_message_b1_nocert :
+  to_opt (signed_message (ex V1b1) None ex_validity ex_date ex_expires)
+  = spec_message_b1 (ex V1b1) None ex_validity ex_date ex_expires
+  /\ is_ok (signed_message (ex V1b1) None ex_validity ex_date ex_expires) = true.
+Proof. vm_compute. split; reflexivity. Qed.
+
+Example ex_message_b2b3 :
+  forallb (fun v =>
+    match signed_message (ex v) (Some (sha256 ex_cert)) ex_validity ex_date ex_expires,
+          spec_message_b2b3 (ex v) (Some (sha256 ex_cert)) ex_validity ex_date ex_expires with
+    | Ok a, Some b => bytes_eqb a b
+    | _, _ => false
+    end) [V1b2; V1b3] = true.
+Proof. vm_compute. reflexivity. Qed.
+
+(* hypothesis of c08_signed_message_b2b3_conforms on the example *)
+Example ex_message_b2b3_hyp : forall hdr, encode_exchange_headers (ex V1b3) = Ok hdr -> lenN hdr < two64.
+Proof. intros hdr H. vm_compute in H. inversion H. vm_compute. reflexivity. Qed.
+
+(* REFUTED for b2/b3 without a certificate hash: the spec's "Otherwise a 0 byte"
+   is missing from the library's message (one byte shorter). *)
+Theorem signed_message_b2b3_nocert_refuted :
+  exists e validity date expires m m',
+    e_ver e = V1b3 /\ go_exchange e /\
+    signed_message e None validity date expires = Ok m /\
+    spec_message_b2b3 e None validity date expires = Some m' /\
+    m <> m' /\ lenN m' = lenN m + 1 /\
+    (* the two differ exactly by the 0 byte after the 84-byte prefix *)
+    firstn 84 m' = firstn 84 m /\ nth 84 m' 1 = 0 /\ skipn 85 m' = skipn 84 m.
+Proof.
+  exists (ex V1b3), ex_validity, ex_date, ex_expires.
+  destruct (signed_message (ex V1b3) None ex_validity ex_date ex_expires) as [m| | |] eqn:E1;
+    try (vm_compute in E1; discriminate E1).
+  destruct (spec_message_b2b3 (ex V1b3) None ex_validity ex_date ex_expires) as [m'|] eqn:E2;
+    try (vm_compute in E2; discriminate E2).
+  exists m, m'. split; [reflexivity|]. split; [apply ex_go|]. split; [reflexivity|]. split; [reflexivity|].
+  vm_compute in E1. vm_compute in E2. inversion E1; inversion E2; subst.
+  split; [discriminate|]. repeat split; vm_compute; reflexivity.
+Qed.
+Print Assumptions signed_message_b2b3_nocert_refuted.
+
+Example ex_file :
+  forallb (fun v => match write (ex v), spec_file (ex v) with
+                    | Ok a, Some b => bytes_eqb a b
+                    | _, _ => false
+                    end) [V1b1; V1b2; V1b3] = true.
+Proof. vm_compute. reflexivity. Qed.
+
+(* the b3 file, field by field *)
+Example ex_file_b3 :
+  exists hdr, encode_exchange_headers (ex V1b3) = Ok hdr /\
+  write (ex V1b3) =
+  Ok (s2b "sxg1-b3" ++ [0] ++ [0; 30] ++ s2b "https://example.com/index.html"
+      ++ [0; 0; 16] ++ [0; 0; 160] ++ s2b "label;sig=*AA==*" ++ hdr ++ s2b "<!doctype html>").
+Proof. eexists. split; vm_compute; reflexivity. Qed.
+
+Example ex_header_integrity :
+  header_integrity sha256 (ex V1b3) = Ok (s2b "sha256-lobEDbTT+xeNkQtUy2ZhbcKx7jTWipurJ/VtdVLsSFk=")
+  /\ spec_header_integrity sha256 (ex V1b3) = to_opt (header_integrity sha256 (ex V1b3)).
+Proof. vm_compute. split; reflexivity. Qed.
+
+Example ex_signature_header :
+  signature_header_value sha256 (ex V1b3) [ex_cert] (s2b "https://example.com/cert.cbor")
+    ex_validity ex_date ex_expires [1; 2; 3]
+  = Ok (s2b "label;cert-sha256=*R2W5kOJzI22JQYZk1Rg3ufDQdmt7oSnGmKPLIiXrnMY=*;cert-url=""https://example.com/cert.cbor"";date=1511128380;expires=1511733180;integrity=""digest/mi-sha256-03"";sig=*AQID*;validity-url=""https://example.com/resource.validity""")
+  /\ spec_signature_header sha256 V1b3 [ex_cert] (s2b "https://example.com/cert.cbor")
+       ex_validity ex_date ex_expires [1; 2; 3]
+     = to_opt (signature_header_value sha256 (ex V1b3) [ex_cert] (s2b "https://example.com/cert.cbor")
+                 ex_validity ex_date ex_expires [1; 2; 3]).
+Proof. vm_compute. split; reflexivity. Qed.
+
+Example ex_signature_header_b1_and_refusal :
+  is_ok (signature_header_value sha256 (ex V1b1) [ex_cert] (s2b "https://e.com/c") ex_validity 1 2 []) = true
+  /\ signature_header_value sha256 (ex V1b1) [ex_cert] (s2b "https://e.com/" ++ [10]) ex_validity 1 2 [] = Err
+  /\ spec_signature_header sha256 V1b1 [ex_cert] (s2b "https://e.com/" ++ [10]) ex_validity 1 2 [] = None.
+Proof. vm_compute. repeat split. Qed.
+
+(* FINDING: the reader does not enforce the limits the format puts on sigLength
+   (and headerLength): a b3 file announcing a 16385-byte Signature is read,
+   although Write refuses to produce it and 5.3 says "parsing MUST fail". *)
+Definition ex_oversig : exchange :=
+  {| e_ver := V1b3; e_uri := s2b "https://e.com/"; e_method := s2b "GET"; e_reqh := [];
+     e_status := 200%Z; e_resph := []; e_sig := repeat 97 16385; e_payload := []; e_taint := false |}.
+Example read_ignores_length_limits :
+  write ex_oversig = Err /\ spec_file ex_oversig = None /\
+  exists hdr, encode_exchange_headers ex_oversig = Ok hdr /\
+    is_ok (read (s2b "sxg1-b3" ++ [0] ++ [0; 14] ++ e_uri ex_oversig ++ [0; 64; 1] ++ [0; 0; lenN hdr]
+                 ++ e_sig ex_oversig ++ hdr)) = true.
+Proof.
+  split; [vm_compute; reflexivity|]. split; [vm_compute; reflexivity|].
+  eexists. split; vm_compute; reflexivity.
+Qed.
